@@ -156,9 +156,9 @@ def step (st : St) (ws : List String) : St × String :=
         let offs := String.join ((List.range 15).map fun i => showOut (dyStr st.now) (Out.rt tCtrl i 123 0))
         let sq := { st.seq with atEnd := false, loop := { caughtStart := true }, smfFormat := 0 }
         match parseSMF sq .xmidi (st.songs.getD k.toNat []) with
-        | .ok (.ok s) => ({ st with seq := s }, s!"ret=- ev={offs}")
-        | _ => ({ st with seq := sq }, s!"ret=- ev={offs}")
-      else (st, "ret=- ev=-")
+        | .ok (.ok s) => ({ st with seq := s, now := 0, frames := 0 }, s!"ret=- ev={offs}")
+        | _ => ({ st with seq := sq, now := 0, frames := 0 }, s!"ret=- ev={offs}")
+      else ({ st with now := 0, frames := 0 }, "ret=- ev=-")
     | none => (st, "bad-op")
   | ["songs"] => (st, s!"ret={st.songs.length}")
   | ["tracks"] => (st, s!"ret={st.seq.tracks.length}")
